@@ -6,7 +6,8 @@
   ycbcr_601: rgb -> ycbcr in `double` (Float), ycbcr -> rgb8 by the translated integer formulas (Gen/C18.lean).
   cmyka: the core rgb8 -> cmyk8 (C09's model of it, repeated here) plus alpha, then cmyk -> rgb, alpha = max.
   gray_alpha / gray -> rgba: channel copies and the 8-bit channel_multiply.
-  xyz, lab (powf) and ycbcr_709 are NOT modelled: their ops are judged on the implementation's output only.
+  ycbcr_709 likewise (both directions in `double`).
+  xyz and lab (powf) are NOT modelled: their ops are judged on the implementation's output only.
 
   `HsvQ` is the same hsv -> rgb case split over exact rationals, used by the periodicity / grey theorems.
 -/
@@ -74,6 +75,7 @@ def rgbToHsl (r g b : Int) : Float32 × Float32 × Float32 :=
     let sum := mx + mn
     let l := (mn + mx) / 2
     let sat := if l < 0.5 then diff / sum else diff / (2 - sum)
+    let sat := if sat > 1 then 1 else sat        -- clamp added by fix 154d970 (float rounding could exceed 1)
     let h : Float32 :=
       if Float32.abs (mx - tr) < 0.0001 then (tg - tb) / diff
       else if Float32.abs (mx - tg) < 0.0001 then 2 + (tb - tr) / diff
@@ -114,6 +116,25 @@ def rgbToYcbcr601 (r g b : Int) : Int × Int × Int :=
 
 def ycbcr601ToRgb (y cb cr : Int) : Int × Int × Int :=
   (ycbcr601_red y cb cr, ycbcr601_green y cb cr, ycbcr601_blue y cb cr)
+
+/-! ### ycbcr_709 (8-bit; the inverse as repaired by fix 4562cac: plain chroma offsets, 1.402, clamped) -/
+
+def rgbToYcbcr709 (r g b : Int) : Int × Int × Int :=
+  let fr := Float.ofInt r; let fg := Float.ofInt g; let fb := Float.ofInt b
+  let y : Float := 0.299 * fr + 0.587 * fg + 0.114 * fb
+  let cb : Float := 128.0 - 0.168736 * fr - 0.331264 * fg + 0.5 * fb
+  let cr : Float := 128.0 + 0.5 * fr - 0.418688 * fg - 0.081312 * fb
+  (Int.ofNat y.toUInt8.toNat, Int.ofNat cb.toUInt8.toNat, Int.ofNat cr.toUInt8.toNat)
+
+/-- detail::clamp(v, 0.0, 255.0) = v < lo ? lo : hi < v ? hi : v -/
+def clampF (v : Float) : Float := if v < 0.0 then 0.0 else if 255.0 < v then 255.0 else v
+
+def ycbcr709ToRgb (y cb cr : Int) : Int × Int × Int :=
+  let fy := Float.ofInt y; let fcb := Float.ofInt cb - 128.0; let fcr := Float.ofInt cr - 128.0
+  let red := clampF (fy + 1.402 * fcr)
+  let green := clampF (fy - 0.34414 * fcb - 0.71414 * fcr)
+  let blue := clampF (fy + 1.772 * fcb)
+  (Int.ofNat red.toUInt8.toNat, Int.ofNat green.toUInt8.toNat, Int.ofNat blue.toUInt8.toNat)
 
 /-! ### cmyka: core rgb8 -> cmyk8, alpha appended, cmyka8 -> rgba8 -/
 
